@@ -1,11 +1,11 @@
 """C12 system event triggers (_ThreePhaseEvent): each remaining trigger once, in phase and registration order."""
+import sys
 import warnings
 from typing import List
 
 from twisted.internet.base import _ThreePhaseEvent
 from twisted.internet.defer import Deferred
 
-from vlib import api
 from vlib.api import H, cover
 
 PROPERTY = "C12"
@@ -67,7 +67,8 @@ globalLogPublisher.addObserver(_observer)
 
 
 def _fail(msg):
-    return False if api.MODE == "sym" else (False, msg)
+    # plain False under the solver (post: _ needs a falsy value), a diagnostic tuple in replay / vector validation
+    return False if "crosshair" in sys.modules else (False, msg)
 
 
 class _Boom(Exception):
